@@ -17,6 +17,9 @@ import Kust.FieldSpec
 import Kust.Path
 import Kust.Kio
 import Kust.Fix
+import Kust.Edit
+import Kust.Kustfile
+import Kust.Gen.Lists
 import Kust.Gen.FieldSpecs
 import Kust.Gen.Lists
 open Lean Kust
@@ -355,6 +358,84 @@ def runFix (op : String) (a : Json) : Except String Json := do
     | none => return Json.mkObj [("err", Json.str "conflict")]
   | _ => throw s!"unknown fix op {op}"
 
+/-! ### edit / kustfile -/
+def imgOfJ (j : Json) : Edit.Img := ⟨jS j "name", jS j "newName", jS j "newTag", jS j "digest", jS j "tagSuffix"⟩
+def imgToJ (i : Edit.Img) : Json := Json.mkObj [("name", i.name), ("newName", i.newName), ("newTag", i.newTag), ("digest", i.digest), ("tagSuffix", i.tagSuffix)]
+def lblOfJ (j : Json) : Edit.Lbl := { pairs := jPairs (j.getObjValD "pairs"), incSel := jB j "incSel", incTpl := jB j "incTpl" }
+def lblToJ (l : Edit.Lbl) : Json := Json.mkObj [("pairs", pairsToJ l.pairs), ("incSel", l.incSel), ("incTpl", l.incTpl)]
+def genaOfJ (j : Json) : Edit.GenA :=
+  { name := jS j "name", ns := jS j "ns", literals := jStrs (j.getObjValD "literals"), envs := jStrs (j.getObjValD "envs"), env := jS j "env",
+    behavior := jS j "behavior", noHash := jB j "noHash", typ := jS j "typ" }
+def genaToJ (g : Edit.GenA) : Json := Json.mkObj [("name", g.name), ("ns", g.ns), ("literals", strsJ g.literals), ("envs", strsJ g.envs),
+  ("env", g.env), ("behavior", g.behavior), ("noHash", g.noHash), ("typ", g.typ)]
+def patOfJ (j : Json) : Edit.Pat := ⟨jS j "path", jS j "patch", jS j "target"⟩
+def patToJ (p : Edit.Pat) : Json := Json.mkObj [("path", p.path), ("patch", p.patch), ("target", p.target)]
+def jInt (j : Json) : Int := match j.getInt? with | .ok i => i | _ => 0
+def eOfJ (j : Json) : Edit.E :=
+  { kind := jS j "kind", apiVersion := jS j "apiVersion", resources := jStrs (j.getObjValD "resources"), bases := jStrs (j.getObjValD "bases"),
+    components := jStrs (j.getObjValD "components"), buildMetadata := jStrs (j.getObjValD "buildMetadata"),
+    commonLabels := jPairs (j.getObjValD "commonLabels"), commonAnnotations := jPairs (j.getObjValD "commonAnnotations"),
+    labels := (jArr (j.getObjValD "labels")).map lblOfJ, nspace := jS j "namespace", namePrefix := jS j "namePrefix", nameSuffix := jS j "nameSuffix",
+    images := (jArr (j.getObjValD "images")).map imgOfJ, imageTags := (jArr (j.getObjValD "imageTags")).map imgOfJ,
+    replicas := (jArr (j.getObjValD "replicas")).map (fun r => match jArr r with | [a, b] => (a.getStr?.toOption.getD "", jInt b) | _ => ("", 0)),
+    cms := (jArr (j.getObjValD "cms")).map genaOfJ, secrets := (jArr (j.getObjValD "secrets")).map genaOfJ,
+    patches := (jArr (j.getObjValD "patches")).map patOfJ }
+def eToJ (e : Edit.E) : Json := Json.mkObj [("kind", e.kind), ("apiVersion", e.apiVersion), ("resources", strsJ e.resources), ("bases", strsJ e.bases),
+  ("components", strsJ e.components), ("buildMetadata", strsJ e.buildMetadata), ("commonLabels", pairsToJ e.commonLabels),
+  ("commonAnnotations", pairsToJ e.commonAnnotations), ("labels", Json.arr (e.labels.map lblToJ).toArray), ("namespace", e.nspace),
+  ("namePrefix", e.namePrefix), ("nameSuffix", e.nameSuffix), ("images", Json.arr (e.images.map imgToJ).toArray),
+  ("imageTags", Json.arr (e.imageTags.map imgToJ).toArray),
+  ("replicas", Json.arr (e.replicas.map fun r => Json.arr #[Json.str r.1, Json.num (Lean.JsonNumber.fromInt r.2)]).toArray),
+  ("cms", Json.arr (e.cms.map genaToJ).toArray), ("secrets", Json.arr (e.secrets.map genaToJ).toArray),
+  ("patches", Json.arr (e.patches.map patToJ).toArray)]
+
+def opOfJ (j : Json) : Except String Edit.Op := do
+  let a := jStrs (j.getObjValD "args")
+  match jS j "op" with
+  | "addResource" => return .addResource a
+  | "removeResource" => return .removeResource a
+  | "addComponent" => return .addComponent a
+  | "addBuildMeta" => return .addBuildMeta a
+  | "removeBuildMeta" => return .removeBuildMeta a
+  | "setBuildMeta" => return .setBuildMeta a
+  | "addLabel" => return .addLabel a (jB j "force") (jB j "wosel") (jB j "tpl")
+  | "addAnnotation" => return .addAnnotation a (jB j "force")
+  | "setLabel" => return .setLabel a
+  | "setAnnotation" => return .setAnnotation a
+  | "removeLabel" => return .removeLabel a (jB j "ignore")
+  | "removeAnnotation" => return .removeAnnotation a (jB j "ignore")
+  | "setNamespace" => return .setNamespace a
+  | "setNamePrefix" => return .setNamePrefix a
+  | "setNameSuffix" => return .setNameSuffix a
+  | "setReplicas" => return .setReplicas a
+  | "setImage" => return .setImage a
+  | "addConfigMap" => return .addConfigMap a (jS j "ns") (jStrs (j.getObjValD "lits")) (jS j "behavior") (jB j "noHash")
+  | "removeConfigMap" => return .removeConfigMap a (jS j "ns")
+  | "addSecret" => return .addSecret a (jS j "ns") (jStrs (j.getObjValD "lits")) (jB j "noHash")
+  | "removeSecret" => return .removeSecret a (jS j "ns")
+  | "addPatch" => return .addPatch (patOfJ (j.getObjValD "p"))
+  | "removePatch" => return .removePatch (patOfJ (j.getObjValD "p"))
+  | o => throw s!"unknown edit op {o}"
+
+def runEdit (op : String) (a : Json) : Except String Json := do
+  match op with
+  | "seq" =>
+    let valid := jStrs (a.getObjValD "validKeys")
+    let vk : String → Bool := fun k => valid.contains k
+    let ops ← (jArr (a.getObjValD "ops")).mapM opOfJ
+    let (_, outs) := ops.foldl (fun (acc : Edit.E × List Json) o =>
+      let r := Edit.apply vk acc.1 o
+      let e' := r.state acc.1
+      (e', acc.2 ++ [Json.mkObj [("r", Json.str (match r with | .err => "err" | _ => "ok")), ("view", eToJ e')]])) (eOfJ (a.getObjValD "init"), [])
+    return Json.mkObj [("ok", Json.arr outs.toArray)]
+  | "rewrite" =>
+    -- the bytes of the rewritten file, given the rendering of every field
+    let mfTab := (jArr (a.getObjValD "fields")).map fun p => match jStrs p with | [k, v] => (k, v) | _ => ("", "")
+    let mf : String → String := fun f => ((mfTab.find? (·.1 = f)).map (·.2)).getD ""
+    let p := Kustfile.parse Gen.fieldMarshallingOrder (jS a "file")
+    return Json.mkObj [("ok", Json.str (Kustfile.marshal mf Gen.fieldMarshallingOrder p))]
+  | _ => throw s!"unknown edit op {op}"
+
 def dispatch (comp : String) (args : Json) : Except String Json :=
   match comp.splitOn "." with
   | ["fns", op] => runFns op args
@@ -369,6 +450,7 @@ def dispatch (comp : String) (args : Json) : Except String Json :=
   | ["path", op] => runPath op args
   | ["kio", op] => runKio op args
   | ["fix", op] => runFix op args
+  | ["edit", op] => runEdit op args
   | _ => throw s!"unknown component {comp}"
 
 partial def loop (hin hout : IO.FS.Stream) : IO Unit := do
